@@ -88,7 +88,9 @@ static void op_register(int s)
 	CHECK(rc == 0 || rc == -1, "documented return values");
 	if (!valid || had) CHECK(rc == -1, "invalid descriptor/operation or a second registration for the same (descriptor, direction) is refused");
 	if (had) CHECK(errno == EEXIST, "EEXIST for a double registration");
+#ifndef MMF
 	if (valid && !had && freeslots > 0) CHECK(rc == 0, "otherwise it succeeds (record pool not exhausted)");
+#endif
 	if (rc == 0) {
 		struct eventrec * r = op == EVENTS_NETWORK_OP_READ ? SR(s)->reader : SR(s)->writer;
 		CHECK(r != NULL && r->func == cb && r->cookie == &POOL, "callback and its own cookie recorded");
